@@ -141,6 +141,8 @@ class Registry:
         self.spec_funcs = {}    # name -> ast.FunctionDef
         self.spec_prims = {}    # name -> impl(I, args, kwargs, node)
         self.regex_facts = {}   # pattern text -> fact builder
+        from . import k3
+        self.k3_prims = k3.k3_prims()
 
     def add(self, c):
         self.contracts[c.target] = c
@@ -208,6 +210,8 @@ class FunctionVC:
 
     # -- name resolution ----------------------------------------------------
     def lookup_global(self, I, name):
+        if self.c.kind == 'K3' and name in self.reg.k3_prims:
+            return VFunc(name, impl=self.reg.k3_prims[name])
         genv = self.c.ghost.get('env')
         if genv and name in genv:
             v = genv[name]
@@ -236,6 +240,8 @@ class FunctionVC:
                 return src
         if hasattr(_builtins, name):
             return VConc(getattr(_builtins, name))
+        if self.c.kind == 'K3':
+            raise Unsupported('unknown name %r in emitted code' % name)
         mod = real_module(self.c.file)
         if hasattr(mod, name):
             return self.wrap_global(getattr(mod, name), name)
@@ -290,6 +296,10 @@ class FunctionVC:
         return None
 
     def method_contract(self, I, recv, name, args, kwargs, callnode=None, is_property=False):
+        if isinstance(recv, VRec):
+            from . import k3
+            if recv.cls in k3.NATIVE:
+                return k3.NATIVE[recv.cls](I, recv, name, args, kwargs)
         tgt = self._method_target(recv, name)
         c = self.reg.contracts.get(tgt)
         if c is None:
@@ -297,6 +307,9 @@ class FunctionVC:
         return self.apply_contract(I, c, args, kwargs, callnode, selfv=recv)
 
     def rec_attr(self, I, rec, name):
+        from . import k3
+        if rec.cls in k3.NATIVE:
+            return VFunc(name, selfv=rec)
         tgt = self._method_target(rec, name)
         c = self.reg.contracts.get(tgt)
         if c is not None:
@@ -369,6 +382,7 @@ class FunctionVC:
             raise Unsupported('contracted function %s called inside a spec' % c.target)
         bound = self.bind(c, args, kwargs, selfv)
         k = self.call_ordinal(I, callnode)
+        I.ghost.setdefault('calls', []).append((c.short, dict(bound)))
         saved_env, saved_old = I.env, I.old_env
         I.env = dict(bound)
         try:
@@ -377,13 +391,20 @@ class FunctionVC:
                          I.spec_bool(r), 'pre', {'text': r, 'callee': c.target})
             I.old_env = {n: models.snapshot(v) for n, v in bound.items()}
             for n in c.modifies:
-                havoc_in_place(bound[n], n)
+                if '.' in n:
+                    obj, fld = n.split('.', 1)
+                    rec = bound[obj]
+                    rec.fields[fld] = fresh(ty_of(rec.fields[fld]), fld) if fld in rec.fields \
+                        else fresh(parse_ty(c.rec_fields[fld]), fld)
+                else:
+                    havoc_in_place(bound[n], n)
             raises = list(c.raises.items())
             choice = I.path.choose(1 + len(raises), 'call:%s' % c.short)
             if choice == 0:
                 result = fresh(parse_ty(c.result), 'ret_' + c.short.replace('.', '_')) \
                     if c.result else NONE
                 I.env['result'] = result
+                I.ghost.setdefault('results', []).append((c.short, result))
                 for en, spec in raises:
                     if spec.get('iff') and spec.get('when'):
                         I.assume(z3.Not(I.spec_bool(spec['when'])))
@@ -482,7 +503,7 @@ class FunctionVC:
     def check_raise(self, I, c, exc, env):
         I.env = dict(env)
         I.env['exc'] = exc
-        names = [k.__name__ for k in exc.cls.__mro__] if exc.cls is not None else []
+        names = [k.__name__ for k in exc.cls.__mro__] if exc.cls is not None else ['*']
         spec = None
         for en, sp in c.raises.items():
             if en in names:
